@@ -630,9 +630,75 @@ fn cex_M1() {
         }
     }
 
+    // ---- file names that are NOT valid Unicode (Unix) ----
+    // C11: the exit status is decided by the severities alone ("warning|info|hint ... never fail the run"; "`list` ...
+    // exits 0"), and the report is ONE JSON object "mapping each root-relative file path to its list": a member name is
+    // a string, so such a path shows with U+FFFD for its bad bytes; every diagnostic / block appears exactly once - also
+    // when two different names show alike.
+    #[cfg(unix)]
+    {
+        use std::ffi::OsStr;
+        use std::os::unix::ffi::OsStrExt;
+        let block = |name: &str, attrs: &str| py_block(name, attrs, &["b", "a"]);
+        // (bytes of the root-relative path, block name, attributes, severity of its one keep-sorted diagnostic or 0 = sorted)
+        type RawFile = (&'static [u8], &'static str, &'static str, u64);
+        let scenarios: Vec<(&str, Vec<RawFile>)> = vec![
+            ("a warning-only file whose name is Latin-1", vec![(b"caf\xe9.py", "w1", " keep-sorted severity=\"warning\"", 2), (b"ok.py", "o1", " keep-sorted severity=\"hint\"", 4)]),
+            ("two names that show alike (caf\\xe9.py, caf\\xe8.py), warning and info", vec![(b"caf\xe9.py", "w1", " keep-sorted severity=\"warning\"", 2), (b"caf\xe8.py", "w2", " keep-sorted severity=\"info\"", 3)]),
+            ("an error-severity file in a directory, both names not Unicode", vec![(b"d\xff/err\xfe.py", "e1", " keep-sorted", 1), (b"caf\xe9.py", "w1", " keep-sorted severity=\"warning\"", 2)]),
+        ];
+        for (si, (what, raw_files)) in scenarios.iter().enumerate() {
+            let root = base.join(format!("repo_raw_{si}"));
+            std::fs::create_dir_all(root.join(".git")).unwrap();
+            for (bytes, name, attrs, _) in raw_files {
+                let p = root.join(Path::new(OsStr::from_bytes(bytes)));
+                std::fs::create_dir_all(p.parent().unwrap()).unwrap();
+                std::fs::write(&p, block(name, attrs)).unwrap();
+            }
+            let shown = |bytes: &[u8]| String::from_utf8_lossy(bytes).to_string();
+            let exp_diags: BTreeSet<DiagKey> = raw_files.iter().filter(|f| f.3 != 0).map(|f| (shown(f.0), "keep-sorted".to_string(), 3, 1, f.3)).collect();
+            let exp_listing: BTreeSet<ListKey> = raw_files.iter().map(|f| (shown(f.0), f.1.to_string(), 1, 3)).collect();
+            let any_error = raw_files.iter().any(|f| f.3 == 1);
+            let input = |args: &[String]| {
+                json!({
+                    "argv": args,
+                    "started_in": "<root>",
+                    "stdin": "none; BLOCKWATCH_TERMINAL_MODE=1",
+                    "scenario": what,
+                    "repository": {"directories_only": [".git/"], "files": raw_files.iter().map(|f| json!({"path_bytes": f.0, "path_shown": shown(f.0), "file_text": block(f.1, f.2)})).collect::<Vec<_>>()},
+                })
+            };
+            for list in [false, true] {
+                let inv = Invocation { list, ..plain.clone() };
+                let (args, obs) = run(&root, &[], &inv);
+                cases += 1;
+                let observed = json!({"exit_status": obs.status, "stdout": obs.stdout, "stderr": obs.stderr});
+                if list {
+                    if obs.status != Some(0) || parse_listing(&obs.stdout).as_ref() != Some(&exp_listing) || !obs.stderr.trim().is_empty() {
+                        cex_fail(
+                            "M1",
+                            "`list` prints the selected blocks as one JSON object on stdout and exits 0 - whatever the names of the files are (a name that is not valid Unicode shows with U+FFFD; every block exactly once)",
+                            input(&args),
+                            json!({"exit_status": 0, "stdout_blocks": list_json(&exp_listing), "stderr": ""}),
+                            observed,
+                        );
+                    }
+                } else if obs.status != Some(if any_error { 1 } else { 0 }) || parse_diags(&obs.stderr).as_ref() != Some(&exp_diags) || !obs.stdout.trim().is_empty() {
+                    cex_fail(
+                        "M1",
+                        "a validation run exits 1 exactly when a diagnostic has severity error (warnings never fail the run) and prints every diagnostic exactly once in one JSON object on stderr - whatever the names of the files are (a name that is not valid Unicode shows with U+FFFD)",
+                        input(&args),
+                        json!({"exit_status": if any_error { 1 } else { 0 }, "stderr_diagnostics": diag_json(&exp_diags), "stdout": ""}),
+                        observed,
+                    );
+                }
+            }
+        }
+    }
+
     cex_none(
         "M1",
         cases,
-        "real binary in throw-away repositories (14 files: sorted / unsorted / warning-only keep-sorted blocks in python and rust, two rules on one block, sub-directories, a name without a grammar holding unbalanced tags, directories b/ and b/b/, a file only an ignore glob matches, x.cxx, a hidden file, a nested directory with its own .hg, a sub-directory to start from): terminal mode x 8 glob sets x 4 ignore sets x {no flag, -d keep-sorted, -e line-count, -E cxx=cpp, list}; 12 diffs x 3 glob sets x 2 ignore sets (+ list); flag rejections; start directory root / sub-directory alternating; two repositories with opposite file creation order alternating; every 4th invocation 3 + 1 times; a repository with an unbalanced file; runs started inside a nested repository (inner .git under an outer .hg tree and the mirror image; start = inner/, inner/src/, inner/src/deep/; a same-named file clean in one tree and violating in the other; scan, list and diff naming b/src/x.py)",
+        "real binary in throw-away repositories (14 files: sorted / unsorted / warning-only keep-sorted blocks in python and rust, two rules on one block, sub-directories, a name without a grammar holding unbalanced tags, directories b/ and b/b/, a file only an ignore glob matches, x.cxx, a hidden file, a nested directory with its own .hg, a sub-directory to start from): terminal mode x 8 glob sets x 4 ignore sets x {no flag, -d keep-sorted, -e line-count, -E cxx=cpp, list}; 12 diffs x 3 glob sets x 2 ignore sets (+ list); flag rejections; start directory root / sub-directory alternating; two repositories with opposite file creation order alternating; every 4th invocation 3 + 1 times; a repository with an unbalanced file; runs started inside a nested repository (inner .git under an outer .hg tree and the mirror image; start = inner/, inner/src/, inner/src/deep/; a same-named file clean in one tree and violating in the other; scan, list and diff naming b/src/x.py); (Unix) three repositories whose file / directory names are not valid Unicode: warning-only, two names with the same lossy text, error severity - validation run and `list` each",
     );
 }
